@@ -51,7 +51,7 @@ static void j_mid(Sha256* h)
   j_arr_end();
 }
 
-void drv_init(int, char**) {}
+void drv_init(int, char**) { g_op_timeout = 3000; }   // "zeros 4096" hashes 4 GiB under ASan: minutes on a loaded machine
 void drv_fini() { delete H; H = 0; }
 void drv_reset() { drv_fini(); H = new Sha256; }
 
